@@ -116,7 +116,8 @@ class Check(PropertyCheck):
     module = "Props.C01"
     extra_modules = ["Model.EvalTreeCases"]
     theorems = ["C01_sched_refines_spec_partial", "C01_result_stable", "C01_value_xor_error", "C01_reference_decides",
-                "C01_catch_all_positional", "C01_catch_all_nonvacuous", "C01_nonvacuous"]
+                "C01_catch_all_positional", "C01_catch_all_nonvacuous", "C01_one_outcome", "C01_schedule_independent",
+                "C01_two_failures_two_outcomes", "C01_nonvacuous"]
     assumptions = [
         "task functions are deterministic and terminate (premise of the property)",
         "Coq model covers task calls, failing tasks, parallel containers of calls, seq and catch; lazy operators, partial tasks, expression defaults, cond, catch_all, map_, flat_map, apply_func, fork_thread/join_thread, apply_tags and the thread/process/async executor modes are reached only by the reference-evaluator oracle on the real scheduler",
